@@ -6,6 +6,7 @@
 mod crash;
 mod csvrt;
 mod etrade;
+mod fmv;
 mod gen;
 mod ledger;
 mod model;
@@ -195,6 +196,38 @@ fn main() {
                 writeln!(w, "{}", serde_json::to_string(r).unwrap()).unwrap();
             }
             println!("etrade scenarios {}", recs.len());
+        }
+        "fmv-run" => {
+            // --in: tables (MC_Fmv) and page / statement cases (MC_PageIter); --gen N: seeded random (page count, hints)
+            let out = arg(&args, "--out").expect("--out");
+            let seed: u64 = arg(&args, "--seed").and_then(|s| s.parse().ok()).unwrap_or(1);
+            let scratch = std::path::PathBuf::from(arg(&args, "--scratch").expect("--scratch"));
+            std::fs::create_dir_all(&scratch).unwrap();
+            let mut cases: Vec<(u64, serde_json::Value)> = Vec::new();
+            if let Some(inp) = arg(&args, "--in") {
+                for (n, line) in std::io::BufReader::new(std::fs::File::open(&inp).unwrap()).lines().enumerate() {
+                    let line = line.unwrap();
+                    if !line.trim().is_empty() {
+                        cases.push((n as u64, serde_json::from_str(&line).unwrap()));
+                    }
+                }
+            }
+            if let Some(g) = arg(&args, "--gen") {
+                let g: u64 = g.parse().unwrap();
+                for k in 0..g {
+                    cases.push((1_000_000 + k, fmv::gen_pages_case(seed, k)));
+                }
+            }
+            let recs = par_map(&cases, threads, |(n, c)| match c["kind"].as_str().unwrap_or("tab") {
+                "pages" => fmv::pages_record(c, *n),
+                "stmt" => fmv::stmt_record(c, *n, &scratch),
+                _ => fmv::table_record(c, *n, seed),
+            });
+            let mut w = BufWriter::new(std::fs::File::create(out).unwrap());
+            for r in &recs {
+                writeln!(w, "{}", serde_json::to_string(r).unwrap()).unwrap();
+            }
+            println!("fmv cases {}", recs.len());
         }
         "qt-run" => {
             // --in: sheets emitted by MC_Questrade; --gen N: seeded random exports instead
